@@ -50,7 +50,12 @@ VLt(a, b) == VLeq(a, b) /\ a # b
 VText(v) == ToString(v[1]) \o "." \o ToString(v[2]) \o "." \o ToString(v[3])
 
 SeqSet(s) == {s[i] : i \in 1..Len(s)}
-Restrict(f, S) == [k \in S |-> f[k]]
+\* TLC keeps [x \in S |-> e] and {x \in S : p} symbolic (closures) even inside cached constant
+\* definitions and re-evaluates them at every use; Table / Force make the explicit function /
+\* set once.  (Run with one worker: TLC caches such constants per worker thread only.)
+Table(f) == f @@ <<>>
+Force(S) == DOMAIN ([x \in S |-> TRUE] @@ <<>>)
+RestrictTo(f, S) == [k \in S |-> f[k]]
 SetKeys(P, K, v) == [k \in DOMAIN P \cup K |-> IF k \in K THEN v ELSE P[k]]
 
 ---------------------------------------------------------------------------
@@ -72,11 +77,11 @@ ValEq(a, b) == IF IsNum(a) /\ IsNum(b) THEN FBits(a.v, b.v) ELSE a = b
 
 ---------------------------------------------------------------------------
 (* the current models *)
-CallIdsOf == [m \in ModelNames |-> {Models[m].call[i].id : i \in 1..Len(Models[m].call)}]
-PdIdsOf == [m \in ModelNames |->
-              {Models[m].call[i].id : i \in {j \in 1..Len(Models[m].call) : Models[m].call[j].pd}}]
-SldIdsOf == [m \in ModelNames |->
-              {Models[m].call[i].id : i \in {j \in 1..Len(Models[m].call) : Models[m].call[j].sld}}]
+CallIdsOf == Table([m \in ModelNames |-> Force({Models[m].call[i].id : i \in 1..Len(Models[m].call)})])
+PdIdsOf == Table([m \in ModelNames |->
+              Force({Models[m].call[i].id : i \in {j \in 1..Len(Models[m].call) : Models[m].call[j].pd}})])
+SldIdsOf == Table([m \in ModelNames |->
+              Force({Models[m].call[i].id : i \in {j \in 1..Len(Models[m].call) : Models[m].call[j].sld}})])
 
 \* attribute suffixes as old SasView wrote them (convert.py PD_DOT, in its order)
 Dots == <<".width", ".npts", ".nsigmas", ".type", ".lower", ".upper", ".fittable", ".std",
@@ -92,7 +97,7 @@ UnderOf(d) == CASE d = ".width" -> "_pd" [] d = ".npts" -> "_pd_n"
 LegalKeys(m, us) ==
     {id \o d : id \in CallIdsOf[m], d \in AnyDots}
     \cup {id \o (IF us THEN UnderOf(d) ELSE d) : id \in PdIdsOf[m], d \in PdDots}
-LegalKeysOf == [m \in ModelNames |-> [us \in BOOLEAN |-> LegalKeys(m, us)]]
+LegalKeysOf == Table([m \in ModelNames |-> Table([us \in BOOLEAN |-> Force(LegalKeys(m, us))])])
 
 ---------------------------------------------------------------------------
 (* Target: convert.py _conversion_target and the model_version gate *)
@@ -105,7 +110,7 @@ ModelOf(new) ==
     IF new \in ModelNames THEN new
     ELSE LET S == {m \in ModelNames : \E k \in 0..9 : new = m \o ":" \o ToString(k)}
          IN IF S = {} THEN "" ELSE CHOOSE m \in S : TRUE
-EntryModel == [i \in 1..NE |-> ModelOf(Entries[i].new)]
+EntryModel == Table([i \in 1..NE |-> ModelOf(Entries[i].new)])
 ReturnedName(i) == IF Variant = "asWritten" THEN Entries[i].new ELSE EntryModel[i]
 
 ---------------------------------------------------------------------------
@@ -149,8 +154,8 @@ ExpandW(i) ==
     IF m = "" \/ Entries[i].new # m THEN Entries[i].map        \* ':' entries use the bare table
     ELSE ControlAsWritten(ExpandK(Entries[i].map, Models[m].kernel, 1), Models[m].kernel)
 \* the translation the property means (RowsOf) and the one the code used as written (RowsW)
-RowsOf == [i \in 1..NE |-> Expand(i)]
-RowsW == [i \in 1..NE |-> ExpandW(i)]
+RowsOf == Table([i \in 1..NE |-> Expand(i)])
+RowsW == Table([i \in 1..NE |-> ExpandW(i)])
 
 \* old key -> new key ("" = dropped), for every row and attribute suffix; first row wins
 RowMap(r) ==
@@ -159,14 +164,14 @@ RowMap(r) ==
             IF r.newnone THEN "" ELSE r.new \o (CHOOSE d \in DotSet : r.old \o d = k)]
 RECURSIVE MergeRows(_, _)
 MergeRows(rows, j) == IF j > Len(rows) THEN <<>> ELSE RowMap(rows[j]) @@ MergeRows(rows, j + 1)
-KeyMapOf == [i \in 1..NE |-> MergeRows(RowsOf[i], 1)]
+KeyMapOf == Table([i \in 1..NE |-> MergeRows(RowsOf[i], 1)])
 \* new key -> old key of the (first) row producing it
 InvRowMap(r) ==
     IF r.oldnone \/ r.newnone THEN <<>>
     ELSE [k \in {r.new \o d : d \in DotSet} |-> r.old \o (CHOOSE d \in DotSet : r.new \o d = k)]
 RECURSIVE MergeInv(_, _)
 MergeInv(rows, j) == IF j > Len(rows) THEN <<>> ELSE InvRowMap(rows[j]) @@ MergeInv(rows, j + 1)
-InvMapOf == [i \in 1..NE |-> MergeInv(RowsOf[i], 1)]
+InvMapOf == Table([i \in 1..NE |-> MergeInv(RowsOf[i], 1)])
 
 ---------------------------------------------------------------------------
 (* HandConvert: convert.py _hand_convert_3_1_2_to_4_1, on old names.      *)
@@ -220,7 +225,7 @@ SeqDots(np, P, r, d) ==
              tgt == IF r.newnone THEN "" ELSE r.new \o Dots[d]
          IN IF src \in DOMAIN np /\ src # tgt
             THEN LET np1 == IF tgt # "" THEN SetKeys(np, {tgt}, P[src]) ELSE np
-                 IN SeqDots(Restrict(np1, DOMAIN np1 \ {src}), P, r, d + 1)
+                 IN SeqDots(RestrictTo(np1, DOMAIN np1 \ {src}), P, r, d + 1)
             ELSE SeqDots(np, P, r, d + 1)
 RECURSIVE SeqRows(_, _, _, _)
 SeqRows(np, P, rows, j) ==
@@ -256,10 +261,9 @@ MagMap(m) ==
                                    IN x[1][2] \o "_" \o x[1][1] \o x[2]]
        @@ [k \in {KU(y) : y \in U} |-> LET y == CHOOSE y \in U : KU(y) = k
                                        IN "up_" \o y[1] \o y[2]]
-MagMapOf == [m \in ModelNames |-> IF Models[m].nmag > 0 THEN MagMap(m)
-                                  ELSE [k \in {} |-> ""]]
-AngleMap == [k \in {"up_angle" \o d : d \in AnyDots} |->
-                "up_phi" \o (CHOOSE d \in AnyDots : "up_angle" \o d = k)]
+MagMapOf == Table([m \in ModelNames |-> IF Models[m].nmag > 0 THEN Table(MagMap(m)) ELSE <<>>])
+AngleMap == Table([k \in {"up_angle" \o d : d \in AnyDots} |->
+                "up_phi" \o (CHOOSE d \in AnyDots : "up_angle" \o d = k)])
 MapKeys(P, map) ==
     LET To(k) == IF k \in DOMAIN map THEN map[k] ELSE k
         Moved == {k \in DOMAIN P : k \in DOMAIN map}
@@ -297,7 +301,7 @@ UnderMap(m) ==
     LET S == CallIdsOf[m] \X PdDots IN
     [k \in {x[1] \o x[2] : x \in S} |-> LET x == CHOOSE x \in S : x[1] \o x[2] = k
                                         IN x[1] \o UnderOf(x[2])]
-UnderMapOf == [m \in ModelNames |-> UnderMap(m)]
+UnderMapOf == Table([m \in ModelNames |-> Table(UnderMap(m))])
 Underscore(P, us, m) == IF us THEN MapKeys(P, UnderMapOf[m]) ELSE P
 
 ---------------------------------------------------------------------------
@@ -355,8 +359,8 @@ FinalOfRow(i, r) ==
     LET vi == CHOOSE v \in 1..NV : Versions[v] = Entries[i].version
     IN  IF r.newnone THEN [model |-> EntryModel[i], base |-> ""] ELSE ChainBase(r.new, i, vi)
 \* cached per entry and row
-VIdxOf == [i \in 1..NE |-> CHOOSE v \in 1..NV : Versions[v] = Entries[i].version]
-FinalOf == [i \in 1..NE |-> [j \in 1..Len(RowsOf[i]) |-> FinalOfRow(i, RowsOf[i][j])]]
+VIdxOf == Table([i \in 1..NE |-> CHOOSE v \in 1..NV : Versions[v] = Entries[i].version])
+FinalOf == Table([i \in 1..NE |-> Table([j \in 1..Len(RowsOf[i]) |-> FinalOfRow(i, RowsOf[i][j])])])
 
 ---------------------------------------------------------------------------
 (* Table-level checks, every entry and every row (no code is executed)    *)
@@ -381,10 +385,10 @@ EntryDefects(i) ==
     IN (IF EntryModel[i] = "" \/ EntryModel[i] \notin Current THEN {Key("target-model-missing")} ELSE {})
        \cup (IF \E j \in 1..(i - 1) : Entries[j].version = e.version /\ Entries[j].old = e.old
              THEN {Key("duplicate-old-model-name")} ELSE {})
-DefectsOf == [i \in 1..NE |-> EntryDefects(i) \cup (IF EntryModel[i] = "" THEN {} ELSE RowDefects(i))]
-TableDefects == UNION {DefectsOf[i] : i \in 1..NE}
+DefectsOf == Table([i \in 1..NE |-> Force(EntryDefects(i) \cup (IF EntryModel[i] = "" THEN {} ELSE RowDefects(i)))])
+TableDefects == Force(UNION {DefectsOf[i] : i \in 1..NE})
 \* rows that take part in scenarios: old name given, not reported above
-DefectiveOldOf == [i \in 1..NE |->
-    {d.old : d \in {x \in DefectsOf[i] :
-                      x.class \in {"stale-row", "duplicate-old-name", "target-collision"}}}]
+DefectiveOldOf == Table([i \in 1..NE |->
+    Force({d.old : d \in {x \in DefectsOf[i] :
+                      x.class \in {"stale-row", "duplicate-old-name", "target-collision"}}})])
 =============================================================================
